@@ -433,6 +433,20 @@ def aggregate(results):
     return agg
 
 
+def pick_samples(results, n=6):
+    """a few actual cases, preferring scheduled runs that carry hook events / faults over trivial ones"""
+    scored = []
+    for r in results:
+        for s in r.get("samples", []):
+            txt = json.dumps(s, default=str)
+            score = txt.count("(") + 3 * txt.count("REFEED") + 2 * txt.count("FORK_END") + 2 * txt.count("RELOCATE") + (5 if s.get("kind") != "canonical" else 0)
+            scored.append((score, len(scored), dict(s, unit=r.get("label"), argv=r.get("argv"))))
+        if len(scored) > 400:
+            break
+    scored.sort(key=lambda x: (-x[0], x[1]))
+    return [x[2] for x in scored[:n]]
+
+
 def finish_check(prop, tier, root, results, t0, tree, workdir, level_text, rule, extra_cov=None, min_simulated=10):
     """Triage findings, write replays/evidence, print the verdict lines, return the exit code."""
     own = OWNS[prop]
@@ -490,7 +504,7 @@ def finish_check(prop, tier, root, results, t0, tree, workdir, level_text, rule,
         "evaluations": agg["sessions"] + agg["canonical_runs"],
         "distinct_nontrivial": agg["distinct_nontrivial"],
         "rule": rule,
-        "samples": [s for r in results[:40] for s in r.get("samples", [])][:6],
+        "samples": pick_samples(results),
         "seed": root,
         "runs": agg["canonical_runs"] + agg["scheduled_runs"],
         "runs_per_hour": int((agg["canonical_runs"] + agg["scheduled_runs"]) / max(wall, 1e-3) * 3600),
